@@ -311,52 +311,50 @@ section PropertyB
     BOTH communications' registries are exactly as before (every subscription obtained — wait loops, both
     fail-watches, the election's six, every Run of every process — is released; streams are gone; the flag is
     cleared), every process was stopped exactly once and run at most twice. -/
-theorem session_cleans_up (l : Led) (s : Sess) (hp : s.sid ∉ l.pending) (hs : s.sid ∉ l.streams)
+theorem session_cleans_up (l : Led) (s : Sess) (hp : s.sid ∉ l.pending) (hs : l.streams s.sid = [])
     (hes : s.sid ∉ l.estreams) (hl : l.live s.sid = []) (hel : l.elive s.sid = []) :
     (execute l s).1.pending = l.pending ∧ (execute l s).1.live = l.live ∧ (execute l s).1.streams = l.streams ∧
     (execute l s).1.elive = l.elive ∧ (execute l s).1.estreams = l.estreams ∧
     Clean s.nproc (execute l s).2 := by
   have hpf : l.pending.filter (· ≠ s.sid) = l.pending :=
     List.filter_eq_self.2 (fun x hx => by simp; intro e; exact hp (e ▸ hx))
-  have hsf : l.streams.filter (· ≠ s.sid) = l.streams :=
-    List.filter_eq_self.2 (fun x hx => by simp; intro e; exact hs (e ▸ hx))
   have hef : l.estreams.filter (· ≠ s.sid) = l.estreams :=
     List.filter_eq_self.2 (fun x hx => by simp; intro e; exact hes (e ▸ hx))
   have hp' : ∀ a ∈ l.pending, ¬a = s.sid := fun a ha e => hp (e ▸ ha)
-  have hs' : ∀ a ∈ l.streams, ¬a = s.sid := fun a ha e => hs (e ▸ ha)
   have hes' : ∀ a ∈ l.estreams, ¬a = s.sid := fun a ha e => hes (e ▸ ha)
-  have upd_upd : ∀ (f : Sid → List Blk) (sid : Sid) (v w : List Blk), upd (upd f sid v) sid w = upd f sid w := by
-    intro f sid v w; funext x; unfold upd; split <;> rfl
-  have upd_self : ∀ (f : Sid → List Blk) (sid : Sid) (v : List Blk), upd f sid v sid = v := by
-    intro f sid v; simp [upd]
-  have same : ∀ (f : Sid → List Blk) (sid : Sid), f sid = [] → upd f sid [] = f := by
-    intro f sid h; funext x; unfold upd; split <;> simp_all
-  obtain ⟨sid, role, nproc, out, retryable, second⟩ := s
-  simp only at hp hs hes hpf hsf hef hl hel hp' hs' hes'
+  have upd_upd : ∀ {α : Type} (f : Sid → List α) (sid : Sid) (v w : List α), upd (upd f sid v) sid w = upd f sid w := by
+    intro α f sid v w; funext x; unfold upd; split <;> rfl
+  have upd_self : ∀ {α : Type} (f : Sid → List α) (sid : Sid) (v : List α), upd f sid v sid = v := by
+    intro α f sid v; simp [upd]
+  have same : ∀ {α : Type} (f : Sid → List α) (sid : Sid), f sid = [] → upd f sid [] = f := by
+    intro α f sid h; funext x; unfold upd; split <;> simp_all
+  obtain ⟨sid, role, nproc, out, retryable, second, opened⟩ := s
+  simp only at hp hs hes hpf hef hl hel hp' hes'
   have sl := same l.live sid hl
   have se := same l.elive sid hel
-  cases hh : (Sess.handled ⟨sid, role, nproc, out, retryable, second⟩)
+  have ss := same l.streams sid hs
+  cases hh : (Sess.handled ⟨sid, role, nproc, out, retryable, second, opened⟩)
   · -- handleError is not entered
     cases hran : out.ran <;>
-      simp [execute, executeWith, hh, hp, hran, Led.sub, Led.unsub, Led.unsubOpt, upd_upd, upd_self, sl, se, hl, hel,
-        hp', hs', hes', sizeOf', Clean, liveOf, hs, hes] <;>
+      simp [execute, executeWith, hh, hp, hran, Led.sub, Led.unsub, Led.unsubOpt, upd_upd, upd_self, sl, se, ss, hl, hel,
+        hp', hes', sizeOf', Clean, liveOf, hs, hes, releaseAll, staleHits] <;>
       ((repeat' constructor) <;> first | assumption | omega | (split <;> simp) | (intro n hn; omega) | (simp +arith [List.filter] <;> omega))
   · cases hran : out.ran <;> rcases second with _ | ⟨el, fin⟩
-    · simp [execute, executeWith, hh, hp, hran, Led.sub, Led.unsub, Led.unsubOpt, upd_upd, upd_self, sl, se, hl, hel,
-        hp', hs', hes', sizeOf', Clean, liveOf, hs, hes]
+    · simp [execute, executeWith, hh, hp, hran, Led.sub, Led.unsub, Led.unsubOpt, upd_upd, upd_self, sl, se, ss, hl, hel,
+        hp', hes', sizeOf', Clean, liveOf, hs, hes, releaseAll, staleHits]
       all_goals ((repeat' constructor) <;> first | assumption | omega | (split <;> simp) | (intro n hn; omega) | (simp +arith [List.filter] <;> omega))
     · cases el <;> cases hr2 : fin.ran <;>
         simp [execute, executeWith, hh, secondAttempt, election, hp, hran, hr2, Led.sub, Led.unsub, Led.unsubOpt,
-          Led.esub, Led.eunsub, upd_upd, upd_self, sl, se, hl, hel, hp', hs', hes', sizeOf', Clean, liveOf, hs, hes,
-          waitSubs2] <;>
+          Led.esub, Led.eunsub, upd_upd, upd_self, sl, se, ss, hl, hel, hp', hes', sizeOf', Clean, liveOf, hs, hes,
+          waitSubs2, releaseAll, staleHits] <;>
         ((repeat' constructor) <;> first | assumption | omega | (split <;> simp) | (intro n hn; omega) | (simp +arith [List.filter] <;> omega))
-    · simp [execute, executeWith, hh, hp, hran, Led.sub, Led.unsub, Led.unsubOpt, upd_upd, upd_self, sl, se, hl, hel,
-        hp', hs', hes', sizeOf', Clean, liveOf, hs, hes]
+    · simp [execute, executeWith, hh, hp, hran, Led.sub, Led.unsub, Led.unsubOpt, upd_upd, upd_self, sl, se, ss, hl, hel,
+        hp', hes', sizeOf', Clean, liveOf, hs, hes, releaseAll, staleHits]
       all_goals ((repeat' constructor) <;> first | assumption | omega | (split <;> simp) | (intro n hn; omega) | (simp +arith [List.filter] <;> omega))
     · cases el <;> cases hr2 : fin.ran <;>
         simp [execute, executeWith, hh, secondAttempt, election, hp, hran, hr2, Led.sub, Led.unsub, Led.unsubOpt,
-          Led.esub, Led.eunsub, upd_upd, upd_self, sl, se, hl, hel, hp', hs', hes', sizeOf', Clean, liveOf, hs, hes,
-          waitSubs2] <;>
+          Led.esub, Led.eunsub, upd_upd, upd_self, sl, se, ss, hl, hel, hp', hes', sizeOf', Clean, liveOf, hs, hes,
+          waitSubs2, releaseAll, staleHits] <;>
         ((repeat' constructor) <;> first | assumption | omega | (split <;> simp) | (intro n hn; omega) | (simp +arith [List.filter] <;> omega))
 
 /-- **C09 (b), any order.** Any sequence of sessions (any ids, roles, process counts, first and second attempts in any
@@ -371,9 +369,9 @@ theorem sessions_any_order (ss : List Sess) (l : Led) (hi : l.Idle) :
   | nil => exact ⟨hi, rfl, fun i h => absurd h (Nat.not_lt_zero _)⟩
   | cons s ss ih =>
     obtain ⟨hp, hl, hs, hel, hes⟩ := hi
-    obtain ⟨h1, h2, h3, h4, h5, h7⟩ := session_cleans_up l s (by simp [hp]) (by simp [hs]) (by simp [hes])
+    obtain ⟨h1, h2, h3, h4, h5, h7⟩ := session_cleans_up l s (by simp [hp]) (hs _) (by simp [hes])
       (hl _) (hel _)
-    have ih' := ih (execute l s).1 ⟨h1.trans hp, fun x => by rw [h2]; exact hl x, h3.trans hs,
+    have ih' := ih (execute l s).1 ⟨h1.trans hp, fun x => by rw [h2]; exact hl x, fun x => by rw [h3]; exact hs x,
       fun x => by rw [h4]; exact hel x, h5.trans hes⟩
     simp only [executeAll]
     refine ⟨ih'.1, by simp [ih'.2.1], ?_⟩
@@ -389,19 +387,36 @@ theorem refusal_touches_nothing (l : Led) (s : Sess) (hp : s.sid ∈ l.pending) 
     (execute l s).1 = l ∧ (execute l s).2.ret = .refused := by
   simp [execute, executeWith, hp]
 
+/-- **C09 (b), streams.** Whatever `Close()` returns for each of a session's streams, after the session no stream is
+    registered under its id, and a later session of the same id gets every one of its own streams registered (none
+    is refused in favour of a stale entry). Both are conjuncts of `Clean`, so `session_cleans_up` and
+    `sessions_any_order` already quantify over every pattern of Close failures (`Sess.opened`); stated alone: -/
+theorem release_leaves_nothing (l : Led) (s : Sess) (hp : s.sid ∉ l.pending) (hs : l.streams s.sid = [])
+    (hes : s.sid ∉ l.estreams) (hl : l.live s.sid = []) (hel : l.elive s.sid = []) :
+    (execute l s).1.streams s.sid = [] ∧ (execute l s).2.streams = 0 ∧ (execute l s).2.stale = 0 := by
+  obtain ⟨_, _, h3, _, _, hc⟩ := session_cleans_up l s hp hs hes hl hel
+  exact ⟨by rw [h3]; exact hs, hc.2.2.2.2.1, hc.2.2.2.2.2.1⟩
+
+/-- the seeded variant re-derived: keeping a stream whose Close() failed leaves it registered after the session, and
+    the next session of the same id is refused its fresh stream to that peer (corpus line `sess a:c:1f1:ok,a:c:1:ok`) -/
+theorem keep_failed_goes_stale :
+    let r1 := executeWith election releaseKeepFailed (Led.empty 0) ⟨"a", .coord, 1, .ok, false, none, [⟨1, true⟩, ⟨2, false⟩]⟩
+    let r2 := executeWith election releaseKeepFailed r1.1 ⟨"a", .coord, 1, .ok, false, none, [⟨1, false⟩, ⟨2, false⟩]⟩
+    r1.2.streams = 1 ∧ r2.2.stale = 1 := by decide
+
 /-- as found, every bully election left its six subscriptions and its streams on the election communication (witness
     kept as corpus line `sess a:P:1:silent>self:idle`) -/
 theorem asfound_election_leaks :
-    (executeWith electionAsFound (Led.empty 0)
-      ⟨"a", .part, 1, .silent, true, some ⟨.self, .idle⟩⟩).2.elive = 6 := by decide
+    (executeWith electionAsFound releaseAll (Led.empty 0)
+      ⟨"a", .part, 1, .silent, true, some ⟨.self, .idle⟩, []⟩).2.elive = 6 := by decide
 
 /-- non-vacuity: a participant session with two retryable processes whose coordinator stays silent, retried through
     an election this relayer wins and then successful; then the same id again; another id's subscriptions (handle 7,
     on both communications) stay untouched -/
 example :
-    let l0 : Led := ⟨[], fun s => if s = "z" then [⟨"z", 7, 2⟩] else [], [], fun _ => [], ["z"], 8, 2, 0⟩
-    let r1 := execute l0 ⟨"a", .part, 2, .silent, true, some ⟨.self, .ok⟩⟩
-    let r2 := execute r1.1 ⟨"a", .coord, 2, .comm, true, some ⟨.self, .fail⟩⟩
+    let l0 : Led := ⟨[], fun s => if s = "z" then [⟨"z", 7, 2⟩] else [], fun _ => [], fun _ => [], ["z"], 8, 2, 0⟩
+    let r1 := execute l0 ⟨"a", .part, 2, .silent, true, some ⟨.self, .ok⟩, [⟨1, true⟩, ⟨2, false⟩]⟩
+    let r2 := execute r1.1 ⟨"a", .coord, 2, .comm, true, some ⟨.self, .fail⟩, [⟨1, false⟩]⟩
     r1.2.ret = .ok ∧ r1.2.sub = 7 ∧ r1.2.unsub = 7 ∧ r1.2.runs = [1, 1] ∧ r1.2.stops = [1, 1] ∧
     r2.2.ret = .err ∧ r2.2.sub = 8 ∧ r2.2.runs = [2, 2] ∧ r2.2.elive = 0 ∧
     r2.1.live "z" = [⟨"z", 7, 2⟩] ∧ r2.1.live "a" = [] ∧ r2.1.estreams = ["z"] := by decide
